@@ -394,6 +394,26 @@ func pItems(tier string) []proto.Item {
 			}
 		}
 	}
+	// the destination's answer (and a router's) arrives in an IPv4 datagram whose own header carries options: every
+	// offset behind the header moves, for the capture filter and for the decoder alike; the list still ends at the destination
+	for _, v := range proto.Variants {
+		if proto.Info(v).V6 {
+			continue
+		}
+		for _, w := range []int{6, 7, 15} {
+			for _, who := range []string{"destination", "router", "both"} {
+				s := proto.Scn{Variant: v, First: 1, Last: 5, Dest: 3, IPIDBase: 300, EchoBase: 31, TimeoutMs: 300, DelayMs: 10}
+				s.Hops = map[int]proto.HopSpec{}
+				if who != "router" {
+					s.Hops[3] = proto.HopSpec{IPOptWords: w}
+				}
+				if who != "destination" {
+					s.Hops[2] = proto.HopSpec{IPOptWords: w}
+				}
+				items = append(items, proto.Item{Scn: s, Class: fmt.Sprintf("%s/ip-options-%dw/%s", v, w, who), Note: map[string]string{"want_len": "3"}})
+			}
+		}
+	}
 	// SACK probes overtaking each other / lost on the way to the target, around the 2^32 wrap: the list still ends at the
 	// lowest TTL the destination answered (5)
 	items = append(items, c05.ForwardReorder(tier, 300, 31)...)
